@@ -55,7 +55,19 @@ World4 == [name |-> "closed-cap1-coincident",
               S(3, 1, << <<0, 4>>, <<11, 30>> >>, "pick", 1, 2),
               S(2, 3, << <<0, 100>> >>, "svc", 0, 0),
               PD(2, 0, << <<0, 100>> >>, 3, 2, << <<0, 11>> >>, 1, 0) >>]
-FixedWorlds == <<World1, World2, World3, World4>>
+\* closed, loose windows, a matrix that is asymmetric between every pair of places (and metric), several jobs per place and one at
+\* the depot: insertions between two activities at one place, where "there and back" is not twice "there"
+World5 == [name |-> "closed-asym-shared-places",
+  d |-> << <<0, 2, 3>>, <<3, 0, 1>>, <<5, 4, 0>> >>, sloc |-> 1, closed |-> TRUE, eloc |-> 1, shiftEnd |-> 60, cap |-> 3,
+  fixed |-> 2, cd |-> 1, ct |-> 1,
+  jobs |-> << S(2, 1, << <<0, 100>> >>, "del", 1, 0),
+              S(2, 0, << <<0, 100>> >>, "pick", 1, 2),
+              S(3, 1, << <<0, 100>> >>, "del", 1, 1),
+              S(3, 2, << <<0, 100>> >>, "svc", 0, 3),
+              S(1, 1, << <<0, 100>> >>, "del", 1, 0),
+              S(2, 1, << <<5, 40>> >>, "pick", 1, 0),
+              PD(3, 1, << <<0, 100>> >>, 2, 1, << <<0, 100>> >>, 1, 2) >>]
+FixedWorlds == <<World1, World2, World3, World4, World5>>
 \* seed dependent worlds produced by the driver (same record shape), appended to the fixed ones
 ExtraWorlds == IF "EXTRAWORLDS" \in DOMAIN IOEnv /\ IOEnv.EXTRAWORLDS # "" THEN ndJsonDeserialize(IOEnv.EXTRAWORLDS) ELSE <<>>
 Worlds == FixedWorlds \o ExtraWorlds
